@@ -11,7 +11,7 @@ BAD = ['x', '', 'W', 'A', 'wo', 'app', 'r', 'overwrite ', 'a+']
 OLD = ['absent', 'junk', 'empty', 'h5', 'h5_fake_header', 'emd', 'emd_other']
 RULE = ('exhaustive product: every spelling of every mode (12) + 9 invalid strings x old content {absent, junk bytes, zero-length file, non-EMD HDF5, '
         'HDF5 with EMD header but no roots, EMD file holding the same root name, EMD file holding another root} x emdpath {none, '
-        'root, missing} x tree option x target {root, inner node, unrooted node, mixed list, list of rooted nodes only, array, dict}; a reference save of the same target into a '
+        'root, missing} x tree option x target {root, inner node, unrooted node, mixed list, list of rooted nodes only, empty list, array, dict}; a reference save of the same target into a '
         'fresh path is made in every scenario; non-trivial = distinct (mode, old content, emdpath, tree, target)')
 MODELLED = ['the filesystem is a map from paths to slots (Absent / raw bytes token / HDF5 object)', 'byte-for-byte equality is observed by sha256']
 ASSUMPTIONS = ['mode strings (non-string modes are rejected by the same membership test)']
@@ -19,7 +19,7 @@ ASSUMPTIONS = ['mode strings (non-string modes are rejected by the same membersh
 
 def cases(seed, tier):
     rng = random.Random(seed * 5 + 11)
-    combos = list(itertools.product(W + O + A + AO + BAD, OLD, [None, 'r', 'r/zz'], [True, False, None], ['root', 'inner', 'unrooted', 'list', 'list_rooted', 'arr', 'dict']))
+    combos = list(itertools.product(W + O + A + AO + BAD, OLD, [None, 'r', 'r/zz'], [True, False, None], ['root', 'inner', 'unrooted', 'list', 'list_rooted', 'list_empty', 'arr', 'dict']))
     if tier == 'quick':
         # keep every (mode, old, emdpath) triple, sample the rest
         keep = {}
@@ -28,7 +28,7 @@ def cases(seed, tier):
         combos = [rng.choice(v) for v in keep.values()] + rng.sample(combos, 300)
         # every (write/overwrite spelling, old content, input kind) without emdpath
         combos += [(m, o, None, rng.choice([True, False, None]), t) for m in W + O for o in OLD
-                   for t in ['root', 'inner', 'unrooted', 'list', 'list_rooted', 'arr', 'dict']]
+                   for t in ['root', 'inner', 'unrooted', 'list', 'list_rooted', 'list_empty', 'arr', 'dict']]
     out = []
     for mode, old, ep, tr, tgt in combos:
         t = T.rand_tree(rng, 'r', rng.choice([2, 3, 5]), names=['a', 'b', 'c', 'd'], md_p=0.3)
@@ -46,6 +46,8 @@ def cases(seed, tier):
         if tgt == 'list':
             main['input'] = {'kind': rng.choice(['list', 'tuple']), 'items': [{'kind': 'top', 'top': 0, 'tp': []}, {'kind': 'top', 'top': 2, 'tp': []},
                                                                                {'kind': 'arr', 'tok': T.fresh_tok(), 'rank': 1}][:rng.choice([1, 2, 3])]}
+        elif tgt == 'list_empty':
+            main['input'] = {'kind': rng.choice(['list', 'tuple']), 'items': []}      # nothing to save: still a save in that mode
         elif tgt == 'list_rooted':
             # a list made up only of nodes that already belong to a tree (direct children of the root): no Root, nothing unrooted
             kids = [k['name'] for k in t['kids']]
